@@ -1,6 +1,9 @@
 package cache
 
-import "time"
+import (
+	"context"
+	"time"
+)
 
 // ---------------------------------------------------------------------------
 // C11 — the janitor deletes only entries expired longer than DeleteExpiredAfter
@@ -22,6 +25,8 @@ func verifC11(kind int, cycles int) {
 	clk := verifInstallClock(verifT0, verifT1, true)
 
 	const n = 3
+	// two of the keys live in the same shard of the sharded backends (xxhash%128 = 91), one elsewhere
+	keys := [n]string{"a", "k289", "b"}
 	var es [n]int64
 	var present [n]bool
 	anyNever := false
@@ -29,7 +34,7 @@ func verifC11(kind int, cycles int) {
 		present[i] = verifBool("present")
 		es[i] = verifInt64("E")
 		if present[i] {
-			b.put([]byte(verifKeys[i]), 100+i, es[i], 0)
+			b.put([]byte(keys[i]), 100+i, es[i], 0)
 			if es[i] == 0 {
 				anyNever = true
 			}
@@ -52,12 +57,12 @@ func verifC11(kind int, cycles int) {
 			if !present[i] {
 				continue
 			}
-			en, ok := b.get([]byte(verifKeys[i]))
+			en, ok := b.get([]byte(keys[i]))
 			wantKept := es[i] == 0 || es[i] >= boundary
 			if wantKept {
 				verifReach("kept")
 				verifAssert("entry not expired longer than DeleteExpiredAfter survives cleanup", ok)
-				verifAssert("surviving entry is unchanged", !ok || (en.e == es[i] && en.val == 100+i && en.key == verifKeys[i]))
+				verifAssert("surviving entry is unchanged", !ok || (en.e == es[i] && en.val == 100+i && en.key == keys[i]))
 				left++
 			} else {
 				verifReach("deleted")
@@ -76,3 +81,75 @@ func verifH_C11_ShardedMapOf()      { verifC11(2, 1) }
 func verifH_C11_ShardedMap_2cyc()   { verifC11(0, 2) }
 func verifH_C11_SyncMap_2cyc()      { verifC11(1, 2) }
 func verifH_C11_ShardedMapOf_2cyc() { verifC11(2, 2) }
+
+// ---------------------------------------------------------------------------
+// C11, histories through the public API with the janitor's own cleanup cycle: an entry becomes
+// dated by a per-call TTL, by ExpireAll or by arriving through Restore; after an arbitrary time
+// one cycle of the janitor THE CONSTRUCTOR STARTED (on the receiver it was started on) must
+// delete it exactly when it has been expired for longer than DeleteExpiredAfter.
+// ---------------------------------------------------------------------------
+
+func verifC11History(kind int) {
+	unlimited := verifBool("unlimitedTTL")
+	dea := verifInt64("deleteExpiredAfter")
+	verifAssume(dea > 0 && dea <= int64(1)<<50)
+	cfg := Config{DeleteExpiredAfter: time.Duration(dea), ExpirationJitter: -1, DeleteExpiredJobInterval: time.Millisecond}
+	if unlimited {
+		cfg.TimeToLive = UnlimitedTTL
+	} else {
+		cfg.TimeToLive = time.Duration(int64(1) << 40)
+	}
+	b := verifNewBackend(kind, cfg)
+	clk := verifInstallClock(verifT0, verifT1, true)
+	ctx := context.Background()
+	key := []byte("a")
+	how := verifChoice("datedBy", 4) // 0: nothing (config TTL only), 1: per-call TTL, 2: ExpireAll, 3: per-call TTL then Dump/Restore into a second cache
+	wctx := ctx
+	if how == 1 || how == 3 {
+		ttl := verifInt64("callTTL")
+		verifAssume(ttl != 0 && ttl > -(int64(1)<<50) && ttl < int64(1)<<50)
+		wctx = WithTTL(ctx, time.Duration(ttl), true)
+	}
+	_ = b.write(wctx, key, 7)
+	switch how {
+	case 2:
+		b.expAll(ctx)
+	case 3:
+		st := &verifStream{}
+		_, derr := verifDR(b).Dump(st)
+		b2 := verifNewBackend(kind, cfg)
+		_, rerr := verifDR(b2).Restore(st)
+		verifAssert("dump and restore succeed", derr == nil && rerr == nil)
+		b = b2
+	}
+	// the entry as stored (Walk takes the backend's own locks)
+	stored, e0 := false, int64(0)
+	_, _ = b.walk(func(v verifEntryView) {
+		if v.key == "a" {
+			stored, e0 = true, v.e
+			if v.never {
+				e0 = 0
+			}
+		}
+	})
+	verifAssert("entry stored", stored)
+	now := clk.advance()
+	verifJanitorCycle()
+	left := false
+	_, _ = b.walk(func(v verifEntryView) {
+		if v.key == "a" {
+			left = true
+		}
+	})
+	if e0 == 0 || e0 >= now-dea {
+		verifReach("history: kept")
+		verifAssert("janitor keeps an entry that is not expired longer than DeleteExpiredAfter", left)
+	} else {
+		verifReach("history: deleted")
+		verifAssert("janitor deletes an entry expired longer than DeleteExpiredAfter", !left)
+	}
+}
+
+func verifH_C11_History_ShardedMap()   { verifC11History(0) }
+func verifH_C11_History_SyncMap()      { verifC11History(1) }
+func verifH_C11_History_ShardedMapOf() { verifC11History(2) }
